@@ -104,6 +104,37 @@ import threading
 REF_LOCK = threading.RLock()
 
 
+PROD = {"exe": None, "lines": 0, "fails": []}
+
+
+def prod_compare(plugin, sub, lines, starts, impl):
+    """the same op lines through the PRODUCTION build of the library (the repository's own -O3, hooks off, no sanitizer):
+    it must answer exactly what the verification build answered (optimisation-dependent behaviour, code that only works
+    because a hook call or a sanitizer changed it)"""
+    exe = PROD["exe"]
+    if exe is None or len(PROD["fails"]) >= 4:
+        return
+    out, crash, err = core.run_impl(exe, lines, timeout=getattr(plugin, "HARNESS_TIMEOUT", 600))
+    PROD["lines"] += min(len(out), len(lines))
+    n = min(len(out), len(impl))
+    k = None
+    for i in range(n):
+        if out[i] != impl[i]:
+            k = case_of(starts, i)
+            break
+    if k is None and (crash is not None or len(out) < len(impl)):
+        k = case_of(starts, min(len(out), len(lines) - 1))
+    if k is None:
+        return
+    e = starts[k + 1] if k + 1 < len(starts) else len(lines)
+    f = Failure("crash" if (crash and len(out) < e) else "diverge", sub[k], out[starts[k]:min(e, len(out))], impl[starts[k]:e],
+                crash=("prod:" + crash) if (crash and len(out) < e) else None, stderr=(err or "")[-3000:],
+                clause="the production build of the library (-O3, hooks off, no sanitizer) does not answer what the verification build "
+                       "(which agrees with the model) answers on this input")
+    f.name = "production-build pass K'(%s): harness/%s.cpp built with the library's own flags" % (plugin.ID, plugin.DRIVER)
+    PROD["fails"].append(f)
+
+
 def run_both(plugin, exe, cases, timeout):
     """returns list of Failure (unshrunk), number of cases fully validated"""
     fails = []
@@ -163,6 +194,11 @@ def run_both(plugin, exe, cases, timeout):
             crash = "protocol:impl-printed-%d-lines-for-%d-ops" % (len(impl), len(lines))
         if crash is None:
             validated += len(sub) - len(bad_cases)
+            if not bad_cases:
+                try:
+                    prod_compare(plugin, sub, lines, starts, impl)
+                except Exception as e:
+                    log("[prod] pass failed: %r" % e)
             break
         # crashed: which case?
         if len(impl) < len(lines):
@@ -424,6 +460,13 @@ def check(plugin, pid, tier, seed):
     libdir, tree = core.build_lib(kind)
     exe = core.build_harness(plugin.DRIVER, libdir, kind, getattr(plugin, "HARNESS_EXTRA", ()), getattr(plugin, "HARNESS_FLAGS", ()))
     stats = {"evaluations": 0, "distinct_nontrivial": 0, "validated": 0, "samples": [], "distribution": {}}
+    PROD["exe"], PROD["lines"], PROD["fails"] = None, 0, []
+    if getattr(plugin, "PROD_PASS", True) and kind == "asan":
+        try:
+            plib, _ = core.build_lib("prod")
+            PROD["exe"] = core.build_harness(plugin.DRIVER, plib, "prod", getattr(plugin, "HARNESS_EXTRA", ()), getattr(plugin, "HARNESS_FLAGS", ()))
+        except core.BuildError as e:
+            stats["production_build_pass"] = "skipped: the harness needs the hooks (%s)" % str(e).strip().split("\n")[-1][:120]
     kfails = []
     known_hits = []
     if L["driver_ok"]:
@@ -449,6 +492,9 @@ def check(plugin, pid, tier, seed):
         # run in batches so a crash costs little and the 16 cores are used
         fails, validated = run_parallel(plugin, exe, allc, timeout)
         stats["validated"] = validated
+        if PROD["exe"] is not None:
+            stats["production_build_pass"] = "%d op lines answered identically by the -O3 / hooks-off build" % PROD["lines"] if not PROD["fails"] \
+                else "%d divergences" % len(PROD["fails"])
         for f in fails:
             g = shrink(plugin, exe, f)
             g.name = "correspondence K(%s): harness/%s.cpp vs lean/Driver/%s.lean" % (pid, plugin.DRIVER, plugin.DRIVER.upper())
@@ -459,6 +505,8 @@ def check(plugin, pid, tier, seed):
                     "implementation output differs from the model output, which the theorems prove equal to the reference semantics"
             g.clause = clause
             g.has_input = bool(viol)
+            kfails.append(g)
+        for g in PROD["fails"]:
             kfails.append(g)
         # known-finding probes
         for kf in getattr(plugin, "KNOWN", []):
